@@ -309,3 +309,22 @@ func itoa(v int) string {
 	}
 	return itoa(v/10) + string(rune('0'+v%10))
 }
+
+// TransientIn picks one data frame with payload and returns the byte range of
+// its payload on the wire (nil if there is none): a temporary read error in
+// there hits the Reader while it hands out message data, never while it
+// parses a header or feeds a control handler.
+func TransientIn(r *eng.Run, frames []*ref.Frame) [][2]int {
+	var cand []*ref.Frame
+	for _, f := range frames {
+		if !ref.IsControl(f.Op) && len(f.Payload) > 0 {
+			cand = append(cand, f)
+		}
+	}
+	if len(cand) == 0 {
+		return nil
+	}
+	f := cand[r.T.Int(sim.LFaultAt, len(cand))]
+	from := f.HdrEnd + r.T.Int(sim.LFaultAt, f.End-f.HdrEnd)
+	return [][2]int{{from, f.End}}
+}
